@@ -7,11 +7,17 @@ the reference model mc/ref/c01_model.py (which derives the expectation from the 
 
 Alphabets (written out in mc/ref/c01_model.py, echoed in evidence): TYPES (39 spellings of the types named in the
 property statement), values_for(type) (boundary values exactly representable in the type, each with a shape label),
-PATHS (11; wp_opts = a 5-row DataFrame x chunk_size {None,1,2,n-1,n,n+1} x DataFrame index {default, shifted,
+PATHS (12; lit_bs = literal INSERT with a quote inside a string constant spelled \\' instead of ''; wp_opts = a 5-row DataFrame x chunk_size {None,1,2,n-1,n,n+1} x DataFrame index {default, shifted,
 reversed, string labels, duplicate labels} x parallel {4,1} x quote_identifiers {True,False}), PLACEMENTS (NULL none / first / middle / last, plus one all-NULL cell per batch).
 PLACEMENTS also has "after_identity": the value preceded by the identity value of its type (0, '', False, {}, epoch..).
 quick = every type x every path x QUICK_SHAPES (keeps every identity value) x {none, first, middle, after_identity}
 + all-NULL;  thorough = the full product.
+
+Text values (SQL-text paths) also contain every ordered pair of the "syntactically active" sequences of the lexers a
+statement passes through (' \\ $name $1 $$ -- /* */ %s %(x)s ? :1 ; newline), adjacent and apart (c01_model.ACTIVE_TOKENS).
+Every (type, path) batch runs in two session states: pristine, and "used" (session variables NAME and X defined -
+their names occur in the values -, USE of another schema that holds a table of the target's name and back, a cursor
+that already produced a result, a failure and a variable read).
 
 Oracle clauses
   C01.accept     the write of a representable value is accepted (no exception from execute / write_pandas)
@@ -67,7 +73,7 @@ from mc.ref import c01_model as M  # noqa: E402
 PID = "C01"
 LEVEL = "exploration"
 
-DB, SCHEMA, SCHEMA2 = "DB1", "S1", "S2"
+DB, SCHEMA, SCHEMA2, SCHEMA3 = "DB1", "S1", "S2", "S3"
 
 
 # ---- real side ------------------------------------------------------------------------------------------------------
@@ -165,8 +171,8 @@ def _bystander_diff(pre, post, target, new_tables=()):
     return diffs
 
 
-def execute_batch(ts, path, cells):
-    """Run one (type, path) batch on a fresh instance.  Returns a picklable dict of raw observations."""
+def execute_batch(ts, path, cells, state="pristine"):
+    """Run one (type, path, session state) batch on a fresh instance.  Returns a picklable dict of raw observations."""
     sqlt = ts["sql"]
     vals = M.values_for(ts)
     by_rows = [(-1, vals[0][1]), (-2, None), (-3, vals[-1][1] if ts["family"] != "fixed0" else vals[1][1])]
@@ -179,6 +185,28 @@ def execute_batch(ts, path, cells):
         def ex(sql, params=None):
             out["stmts"] += 1
             return cur.execute(sql, params) if params is not None else cur.execute(sql)
+
+        # ---- session state "used": the writes do not happen in a pristine session.  Session variables whose names
+        # occur in the values are defined, the session has been in another schema (holding a table of the target's
+        # name) and came back, and the cursor has already produced a result, a failure and a variable read. ----
+        if state == "used":
+            try:
+                for name, value in M.SESSION_VARIABLES:
+                    ex(f"SET {name} = {value}")
+                ex(f"CREATE SCHEMA {SCHEMA3}")
+                ex(f"USE SCHEMA {SCHEMA3}")
+                ex(f"CREATE TABLE T1 (ID INT, V {sqlt})")
+                _raw_insert(rawc, f'"{DB}"."{SCHEMA3}".T1', ts, by_rows[:2])
+                ex(f"USE SCHEMA {SCHEMA}")
+                ex("SELECT 1").fetchall()
+                with contextlib.suppress(Exception):
+                    ex("SELECT * FROM NO_SUCH_TABLE")
+                live = ex("SELECT $name, $x").fetchall()
+                if [tuple(r) for r in live] != [(42, "VARVAL")]:
+                    raise RuntimeError(f"session variables not live: {live!r}")
+            except Exception as e:  # noqa: BLE001
+                out["setup"] = _err(e)
+                return out
 
         # ---- set-up: bystander table (+ bystander rows in the target) ----
         try:
@@ -349,10 +377,10 @@ def classify(clause, ts, path, cell, rec):
 # ---- judging ------------------------------------------------------------------------------------------------------
 
 
-def judge(ts, path, cells, out, acc, tier, verbose=None):
+def judge(ts, path, cells, out, acc, tier, verbose=None, state="pristine"):
     """Apply every oracle clause to the observations of one batch."""
     tname = ts["sql"]
-    item = {"type": tname, "path": path, "tier": tier}
+    item = {"type": tname, "path": path, "tier": tier, "session": state}
 
     def report(clause, cell, rec, failed, detail):
         cls = classify(clause, ts, path, cell, rec)
@@ -382,7 +410,7 @@ def judge(ts, path, cells, out, acc, tier, verbose=None):
             known_ids.update(i for i, _ in c["rows"])  # they are copied along, just not judged
             continue
         rec = out["cells"][k]
-        key = (tname, path, c["shape"], c["null"])
+        key = (tname, path, state, c["shape"], c["null"])
         if c["shape"] != "null":
             acc.nontrivial(key)
         accepted = rec["act"][0] == "ok"
@@ -429,18 +457,18 @@ def judge(ts, path, cells, out, acc, tier, verbose=None):
 
 
 def run_batch(item, acc: core.Acc, tier):
-    tname, path = item
+    tname, path, state = item
     ts = M.TYPE_BY_NAME[tname]
     cells = M.cells(ts, path, tier)
-    out = execute_batch(ts, path, cells)
+    out = execute_batch(ts, path, cells, state)
     local = core.Acc()
     local.add("engine_default_timezone", _engine_default_tz())
     local.count("batches")
     local.count("statements", out["stmts"])
     local.obs((item, out["setup"], sorted(out["blocked"]), repr(out["readback"]), repr(sorted(out["cells"].items())), out["bystander"]))
-    judge(ts, path, cells, out, local, tier)
+    judge(ts, path, cells, out, local, tier, state=state)
     c = cells[min(1, len(cells) - 1)]
-    sample = core.jsonable({"type": tname, "path": path, "shape": c["shape"], "null_placement": c["null"],
+    sample = core.jsonable({"type": tname, "path": path, "session": state, "shape": c["shape"], "null_placement": c["null"],
                             "rows_written": c["rows"], "statement": out["cells"].get(c["k"], {}).get("sql"),
                             "cells_in_batch": len(cells)})
     first = {k: {"detail": v["detail"], "replay": v["replay"]} for k, v in local.viol.items()}
@@ -449,12 +477,19 @@ def run_batch(item, acc: core.Acc, tier):
 
 
 def items_for(tier):
-    return [
-        (t["sql"], p)
-        for t in M.TYPES
-        for p in M.PATHS
-        if M.type_applies(t, p) and not (tier == "quick" and p == "wp_opts" and t["sql"] not in M.WP_OPTS_QUICK_TYPES)
-    ]
+    """(type, path, session state).  quick: the wp_opts product and the "used" session state for one type per synonym
+    group only."""
+    out = []
+    for t in M.TYPES:
+        rep = t["sql"] in M.WP_OPTS_QUICK_TYPES
+        for p in M.PATHS:
+            if not M.type_applies(t, p) or (tier == "quick" and p == "wp_opts" and not rep):
+                continue
+            for st in M.SESSION_STATES:
+                if st != "pristine" and (p == "wp_opts" or (tier == "quick" and not rep)):
+                    continue  # the option product is not repeated per session state
+                out.append((t["sql"], p, st))
+    return out
 
 
 def run(ctx: core.Ctx):
@@ -498,9 +533,14 @@ def run(ctx: core.Ctx):
         "placements": (M.QUICK_PLACEMENTS if ctx.quick else M.PLACEMENTS) + ["all"],
         "values_per_family": {
             f: [k for k, _ in M.values_for(next(t for t in M.TYPES if t["family"] == f))
-                if not ctx.quick or k in M.QUICK_SHAPES[f]]
+                if not M.is_pair_shape(k) and (not ctx.quick or k in M.QUICK_SHAPES[f])]
             for f in M.QUICK_SHAPES
         },
+        "active_tokens": [k for k, _ in M.ACTIVE_TOKENS],
+        "token_pair_values": "every ordered pair, adjacent" + ("" if ctx.quick else " and apart") + "; types: "
+        + (", ".join(M.PAIR_TYPES_QUICK) if ctx.quick else "every unbounded text type"),
+        "session_states": M.SESSION_STATES,
+        "session_variables": M.SESSION_VARIABLES,
     }
     zones = sorted(ctx.acc.sets.get("engine_default_timezone", ()))
     ctx.extra["engine_default_timezone_in_workers"] = zones
@@ -515,11 +555,11 @@ def replay(payload):
     """Re-execute the batch of a stored counterexample (straight-line, no pool) and print the verdicts of its cell."""
     r = payload["replay"]
     ts = M.TYPE_BY_NAME[r["type"]]
-    path, tier = r["path"], r.get("tier", "thorough")
+    path, tier, state = r["path"], r.get("tier", "thorough"), r.get("session", "pristine")
     cells = M.cells(ts, path, tier)
     want = (r.get("shape"), r.get("null"))
-    print(f"type={ts['sql']} path={path} tier={tier} cell={want} expected python type: {M.expected_pytype(ts)}")
-    out = execute_batch(ts, path, cells)
+    print(f"type={ts['sql']} path={path} session={state} tier={tier} cell={want} expected python type: {M.expected_pytype(ts)}")
+    out = execute_batch(ts, path, cells, state)
     for c in cells:
         if (c["shape"], c["null"]) == want:
             print("  rows written:", c["rows"])
@@ -529,7 +569,7 @@ def replay(payload):
                 print("  read back   :", [x for x in out["readback"][1] if int(x[0]) in ids])
     print("  setup:", out["setup"], "blocked:", [b for b in out["blocked"]], "bystander diff:", out["bystander"])
     acc = core.Acc()
-    judge(ts, path, cells, out, acc, tier, verbose=want)
+    judge(ts, path, cells, out, acc, tier, verbose=want, state=state)
     hit = (payload["clause"], payload["class"]) in acc.viol
     print("verdict:", "VIOLATION reproduced" if hit else "not reproduced", json.dumps(acc.viol.get((payload["clause"], payload["class"]), {}).get("detail"), default=str)[:400])
     return hit
